@@ -418,6 +418,21 @@ function genPlain(rng, ctx, depth) {
         if (a) attrs.push(a)
       }
       const tag = rng.pick(ctx.tags || TAGS)
+      if (tag === 'x-a' && depth > 0 && ctx.slotReceivers && ctx.withScopes && rng.bool(0.4)) {
+        // children that receive slot values (`slot:name`, `slot:name="alias"`): the names are in scope on the receiver and below it
+        const children = []
+        for (let k = rng.range(1, 3); k > 0; k--) {
+          const sv_ = []
+          for (const name of rng.shuffle(['a', 'b-c', 'item', 'list-index']).slice(0, rng.int(3))) sv_.push({ name, as: rng.bool(0.5) ? undefined : rng.pick(['x', 'it', 'idx', 'index']) })
+          const scopeNames = sv_.map((s) => (s.as === undefined ? dashToCamel(s.name) : s.as))
+          if (new Set(scopeNames).size !== scopeNames.length) continue
+          const node = ctx.withScopes(scopeNames, () => genPlain(rng, { ...ctx, slotReceivers: false, tags: (ctx.tags || TAGS).filter((t) => t !== 'x-a'), withScopes: ctx.withScopes.bind(ctx), visibleNames: ctx.visibleNames.bind(ctx), genExpr: ctx.genExpr.bind(ctx), genListValue: ctx.genListValue && ctx.genListValue.bind(ctx), genPathExpr: ctx.genPathExpr && ctx.genPathExpr.bind(ctx) }, depth - 1))
+          if (!node) continue
+          if (node.t === 'el' && sv_.length) node.slotVals = sv_
+          children.push(node)
+        }
+        return { t: 'el', tag, attrs, children }
+      }
       return { t: 'el', tag, attrs, children: depth > 0 ? genNodes(rng, ctx, depth - 1) : [] }
     }
     case 'block': return { t: 'block', children: depth > 0 ? genNodes(rng, ctx, depth - 1, 3) : [] }
@@ -484,6 +499,9 @@ export function genNode(rng, ctx, depth, prevText) {
 }
 
 export function genTextValue(rng, ctx) {
+  // a text node that is one binding of a whitespace-only string literal: it is a real text node (only *static*
+  // whitespace-only text is dropped), whichever white-space characters it holds
+  if (rng.bool(0.04)) return ev(X.str(rng.pick([' ', '\u000b', ' \u000b\n', '\t', '\f', '\r\n', '  ', '\u000b\u000b'])))
   const v = genValue(rng, ctx)
   if (isStatic(v) && /^[ \t\n\r\f\v]*$/.test(staticText(v))) return sv('t' + staticText(v))
   return v
